@@ -581,7 +581,7 @@ func c56Skippers(c *Ctx, ev *Evaluator, fnName, what, set string) bool {
 				continue
 			}
 			call, ok := sl.Low.(*ssa.Call)
-			if !ok || len(call.Call.Args) != 1 || call.Call.Args[0] != sl.X {
+			if !ok || len(BaselineArgs(&call.Call)) != 1 || BaselineArgs(&call.Call)[0] != sl.X {
 				continue
 			}
 			seen[CalleeName(&call.Call)] = true
